@@ -409,7 +409,7 @@ Section Link.
     assert (skipn (length (encode_header text refs)) (encode_file text refs rs) = encode_recs rs) as Hbody.
     { unfold encode_file. rewrite skipn_app, Nat.sub_diag, skipn_all. reflexivity. }
     rewrite Hbody in Hm. change current with repaired in Hm.
-    rewrite !andb_true_iff in Hm. destruct Hm as [[[[[M1 M2] M3] M6] M4] M5].
+    rewrite !andb_true_iff in Hm. destruct Hm as [[[[[[[M1 M2] M3] M6] M7] M8] M4] M5].
     assert (b = buf_of rs) as Hb
       by (pose proof (read_file_correct text refs rs Hh Hfits) as Hrf; rewrite Hread in Hrf; injection Hrf as Hrf; exact Hrf).
     apply (all2_eq _ orec_eqb_eq) in M1. apply (all2_eq _ oiv_eqb_eq) in M2.
@@ -421,6 +421,13 @@ Section Link.
       - apply andb_true_iff in M3. destruct M3 as [_ M3]. apply (all2_eq _ oiv_eqb_eq) in M3. rewrite <- M3. exact Hivs.
       - rewrite (all2_iv_chrom refs rs _ Hivs) in M3. discriminate. }
     cbn [andb]. apply (all2_eq _ orec_eqb_eq) in M6. rewrite <- M6, Hwhole. cbn [andb].
+    assert (forallb (all2 (rec_matches refs) rs) (k_sess c) = true) as ->.
+    { apply forallb_forall. intros l Hl. rewrite forallb_forall in M7. specialize (M7 l Hl).
+      apply (all2_eq _ orec_eqb_eq) in M7. rewrite <- M7. exact Hwhole. }
+    assert (forallb (all2 (iv_matches refs) rs) (k_sess_iv c) = true) as ->.
+    { apply forallb_forall. intros l Hl. rewrite forallb_forall in M8. specialize (M8 l Hl).
+      apply (all2_eq _ oiv_eqb_eq) in M8. rewrite <- M8. exact Hivs. }
+    cbn [andb].
     apply andb_true_iff. split.
     - (* chunked reads *)
       apply forallb_forall. intros [[k counts] got] Hin.
